@@ -361,3 +361,56 @@ Lemma invalid_escapes :
       [$"'\ud800'"; $"'\udfff'"; $"'\U00110000'"; $"'\UFFFFFFFF'"; $"'\q'"; $"'\x4'"; $"'\u12'"; $"'\'"] =
   [None; None; None; None; None; None; None; None].
 Proof. reflexivity. Qed.
+(** Delimiter stripping for the triple-quoted forms: whatever the body is. *)
+Lemma strip_long q body : (q = 34 \/ q = 39) ->
+  strip_delims (q :: q :: q :: body ++ [q; q; q]) = Some body.
+Proof.
+  intros Hq. unfold strip_delims.
+  assert (Eq : ((q =? 34) || (q =? 39)) = true) by (destruct Hq; subst; reflexivity). rewrite Eq.
+  assert (Er : rev' (q :: q :: q :: body ++ [q; q; q]) = q :: q :: q :: rev' body ++ [q; q; q]).
+  { unfold rev'. rewrite <- !rev_alt. cbn [rev]. rewrite rev_app_distr. cbn [rev app]. rewrite <- !app_assoc. reflexivity. }
+  rewrite Er, !N.eqb_refl. cbn [andb].
+  assert (El : Nat.leb 6 (length (q :: q :: q :: body ++ [q; q; q])) = true).
+  { apply Nat.leb_le. cbn [length]. rewrite app_length. cbn [length]. lia. }
+  rewrite El. cbv beta iota zeta.
+  assert (El2 : Nat.ltb (length (q :: q :: q :: body ++ [q; q; q])) (2 * 3) = false).
+  { apply Nat.ltb_ge. cbn [length]. rewrite app_length. cbn [length]. lia. }
+  cbn [andb]. cbv iota. rewrite El2. f_equal. cbn [skipn length]. rewrite app_length. cbn [length].
+  replace (S (S (S (length body + 3))) - 2 * 3)%nat with (length body) by lia.
+  rewrite firstn_app, Nat.sub_diag, firstn_all. cbn. now rewrite app_nil_r.
+Qed.
+
+Theorem string_roundtrip_long q s ks body :
+  (q = 34 \/ q = 39) -> forallb is_scalar s = true -> render q s ks = Some body ->
+  decode_string (q :: q :: q :: body ++ [q; q; q]) = Some s.
+Proof.
+  intros Hq Hs Hr. unfold decode_string, decode_units, literal_body.
+  assert (E : ((q =? ch "r") || (q =? ch "R")) = false) by (destruct Hq; subst; reflexivity).
+  rewrite E. rewrite (strip_long q body Hq). cbn [option_map].
+  destruct (un_render q s ks body Hr Hs (S (length body)) []) as (us & Hu & Hm); [lia|].
+  rewrite Hu. cbn [option_map rev' rev_append app]. f_equal. exact Hm.
+Qed.
+
+Theorem bytes_decode_long p q s ks body :
+  (p = ch "b" \/ p = ch "B") -> (q = 34 \/ q = 39) -> forallb is_scalar s = true ->
+  render q s ks = Some body ->
+  exists us, decode_bytes (p :: q :: q :: q :: body ++ [q; q; q]) = Some (flat_map unit_bytes us) /\ map unit_cp us = s.
+Proof.
+  intros Hp Hq Hs Hr. unfold decode_bytes, decode_units, literal_body.
+  assert (E : ((q =? ch "r") || (q =? ch "R")) = false) by (destruct Hq; subst; reflexivity).
+  rewrite E. rewrite (strip_long q body Hq). cbn [option_map].
+  destruct (un_render q s ks body Hr Hs (S (length body)) []) as (us & Hu & Hm); [lia|].
+  rewrite Hu. cbn [option_map rev' rev_append app]. exists us. split; [reflexivity|exact Hm].
+Qed.
+
+(** Raw triple-quoted literals are taken verbatim - any characters, quotes and newlines included. *)
+Theorem raw_verbatim_long p q s :
+  (p = ch "r" \/ p = ch "R") -> (q = 34 \/ q = 39) ->
+  decode_string (p :: q :: q :: q :: s ++ [q; q; q]) = Some s.
+Proof.
+  intros Hp Hq. unfold decode_string, decode_units, literal_body.
+  assert (E : ((p =? ch "r") || (p =? ch "R")) = true) by (destruct Hp; subst; reflexivity).
+  rewrite E. rewrite (strip_long q s Hq). cbn [option_map].
+  rewrite un_raw by lia. cbn [option_map rev' rev_append app]. f_equal.
+  rewrite map_map. cbn [unit_cp]. apply map_id.
+Qed.
